@@ -15,5 +15,5 @@ let () =
     List.concat_map (fun t -> [n_s t.t_typ; hex_of_bstr t.t_val]) (body_toks n));
   register "go_quote" (fun a ->
     match a with
-    | [s] -> (match go_quote0 (bstr_of_hex s) with Some v -> ["some"; hex_of_bstr v] | None -> ["none"])
+    | [s] -> (match go_quote (bstr_of_hex s) with Some v -> ["some"; hex_of_bstr v] | None -> ["none"])
     | _ -> failwith "go_quote: arity")
